@@ -256,6 +256,10 @@ R("heat.rod1d.Rod1D", "BC2: gamma1/beta1 == gamma2/beta2", "rod1d.py _run messag
   violating=[{"alpha1": 0.0, "beta1": 1.0, "alpha2": 0.0, "beta2": 1.0, "gamma1": 1.0, "gamma2": 2.0}],
   admissible=[{"alpha1": 0.0, "beta1": 1.0, "alpha2": 0.0, "beta2": 1.0, "gamma1": 1.0, "gamma2": 1.0}])
 
+R("heat.rod1d.Rod1D", "(alpha_i,beta_i)!=(0,0)", "rod1d.py module docstring: each end carries 'a linear combination of Dirichlet and Neumann boundary "
+  "conditions' alpha_i T + beta_i dT/dx = gamma_i; alpha_i = beta_i = 0 is no boundary condition",
+  violating=[{"alpha1": 0.0}, {"alpha2": 0.0}, {"alpha1": 0.0, "alpha2": 0.0}], admissible=[{"alpha1": 0.0, "beta1": 1.0}])
+
 # =============================================================================================== Riemann (1D)
 for _c in ("riemann.ep_riemann.IGEOS_Solver", "riemann.ep_riemann.GenEOS_Solver"):
     R(_c, "rho,p>0", "riemann/__init__.py 'Since (p, a, rho) are required to be positive'",
